@@ -57,13 +57,7 @@ def check_sequences(m, res, strat):
         if m.status in ("erroneous", "empty") and not bad:
             bad = ["design has no valid sequence (%s) but one was returned" % m.reason]
         if bad:
-            kind = common.clause_kind(bad[0])
-            feat = ""
-            if kind == "ExactlyK":
-                # k beyond the number of trials in its window: the cardinality encoding truncates k
-                k = int(bad[0].split("(")[1].split(",")[0])
-                feat = "/k>window" if k > m.T else ""
-            return "invalid/%s%s" % (kind, feat), "strategy %s sequence %d: %s ; sequence=%s" % (strat, si, bad[:3], json.dumps(e, default=str)[:600])
+            return "invalid/%s" % common.invalid_tail(m, bad), "strategy %s sequence %d: %s ; sequence=%s" % (strat, si, bad[:3], json.dumps(e, default=str)[:600])
     return None
 
 
